@@ -299,6 +299,11 @@ def writeback_rules(run: Run, model: PyModel, rid: str) -> None:
             txt = trace[wr[0]][2]
             run.check(rid, "the write-back adds the ZID to the note's line and changes nothing else", txt == "# T\n\n- 240101#00 new note\n", "write-back", f"page text {txt!r}",
                       f"the page `# T / / - new note` is written back as {txt!r}", file=FILE_H, node=fq.node)
+        if dumps and isinstance(trace[dumps[-1]][2], dict):
+            kept = "B.zo" in trace[dumps[-1]][2]
+            run.check(rid, "the write-back keeps the hash-map entries of the pages it did not touch", kept, "write-back", f"hash map written: {sorted(trace[dumps[-1]][2])}",
+                      f"the write-back of A.zo writes a hash map holding only {sorted(trace[dumps[-1]][2])}: every other page loses its entry, so a page deleted or renamed afterwards is no longer "
+                      "recognised as stale by the next plain reindex (its notes stay in the index) and every remaining page is processed again", file=FILE_H, node=fq.node)
         if dumps and isinstance(trace[dumps[-1]][2], dict) and trace[dumps[-1]][2].get("B.zo") == "hB2":
             run.refuted(rid, "write-back", "acknowledges unprocessed pages",
                         "the write-back of A.zo recomputes and stores the hashes of ALL pages: B.zo, edited but not yet processed by any reindex, is recorded as up to date and its edit is missed "
@@ -460,3 +465,58 @@ def nextids_untouched(run: Run, model: PyModel, rid: str) -> None:
                           f"`{f.name}` -- run while `db create` / `db reindex` open their session -- performs {[t[0] for t in hits]} on .zorg/next_ids.json: the per-date ZID counters restart, and the next "
                           "allocation on a date hands out a ZID that a note in some page already carries", file=f.file, node=calls[0])
     run.floor("file-removing functions around the db handlers run by themselves", m, 1)
+
+
+def bus_rules(run: Run, model: PyModel, rid: str) -> None:
+    """A command that fails ends the run: the message bus handles nothing after the exception of a command handler -- in particular not the write-back events of pages that
+    were committed before the failure (their handlers refresh file_hash.json and would acknowledge pages the aborted run never reached).  Abstract run of messagebus._handle
+    with a command whose handling raises while the session holds a pending event; and, as the positive twin, with a command that succeeds: the pending event IS handled."""
+    from .absval import HObj
+
+    MB = "zorg.service.messagebus"
+    if not model.has_func(f"{MB}._handle"):
+        run.undecided(rid, "messagebus", "anchor function vanished: zorg.service.messagebus._handle")
+        return
+    n = 0
+    for fails in (True, False):
+        def hc(I, args, kwargs, st, node, fails=fails):
+            st.trace.append(("cmd",))
+            return [(Raised("RuntimeError", node, "Zorg file has errors!") if fails else None, st)]
+
+        def he(I, args, kwargs, st, node):
+            st.trace.append(("event",))
+            return [(None, st)]
+
+        def meth(I, recv, name, args, kwargs, st, node):
+            if recv.cls == "vsession" and name == "collect_new_messages":
+                k = st.meta.get("collected", 0)
+                st.meta["collected"] = k + 1
+                ev = st.alloc(HObj("obj", cls="zorg.domain.messages.events.NewZorgNotesEvent", fields={}))
+                return [(st.alloc(HObj("list", items=[ev] if k == 0 else [])), st)]
+            if recv.cls == "vsession":
+                return [(recv if name == "__enter__" else None, st)]
+            return None
+
+        I = Interp(model, probes={f"{MB}._handle_command": hc, f"{MB}._handle_event": he, "method:*": meth})
+        st = State()
+        cmd = st.alloc(HObj("obj", cls="zorg.domain.messages.commands.ReindexDBCommand", fields={}))
+        try:
+            res = I.run_function(f"{MB}._handle", [st.alloc(HObj("list", items=[cmd])), Opaque("vsession", "")], st=st)
+        except Exception as e:  # noqa: BLE001
+            run.undecided(rid, "messagebus._handle", f"cannot interpret: {type(e).__name__}: {str(e)[:100]}")
+            continue
+        for v, s in res:
+            n += 1
+            if s.imprecise:
+                run.undecided(rid, "messagebus._handle", "; ".join(s.imprecise[:2]))
+                continue
+            kinds = [t[0] for t in s.trace if t[0] in ("cmd", "event")]
+            if fails:
+                run.check(rid, "a failing command ends the run: no pending event is handled after it, and the exception propagates", kinds == ["cmd"] and isinstance(v, Raised), "messagebus._handle",
+                          f"failing command: handled {kinds}, {'raises' if isinstance(v, Raised) else 'returns'}",
+                          f"after a command handler raised, the bus handles {kinds[1:]} and {'re-raises' if isinstance(v, Raised) else 'returns normally'}: the write-back events of an aborted run refresh "
+                          "file_hash.json, which records pages the run never reached as up to date (their edits are then missed), or the failure is swallowed and the command exits 0", file="src/zorg/service/messagebus.py")
+            else:
+                run.check(rid, "after a successful command the pending write-back event is handled", kinds == ["cmd", "event"] and not isinstance(v, Raised), "messagebus._handle", f"successful command: handled {kinds}",
+                          f"after a successful command the bus handles {kinds}: the pending write-back event is dropped (ZIDs / modify dates never reach the files)", file="src/zorg/service/messagebus.py")
+    run.floor("abstract runs of the message bus", n, 2)
